@@ -83,6 +83,7 @@ partial def tyOfSexp : Sexp → Option Ty
   | .list [.atom "alias", t] => (tyOfSexp t).map (.wrap .alias)
   | .list [.atom "cls", k] => (atomNat? k).map .cls
   | .list [.atom "td", k] => (atomNat? k).map .td
+  | .list [.atom "nt", k] => (atomNat? k).map .nt
   | .list (.atom "union" :: ks) => (ks.mapM atomNat?).map (fun cs => .union cs false)
   | .list (.atom "ounion" :: ks) => (ks.mapM atomNat?).map (fun cs => .union cs true)
   | _ => Option.none
@@ -102,7 +103,8 @@ def fieldOfSexp : Sexp → Option Field
 def clsOfSexp : Sexp → Option Cls
   | .list (.atom "cls" :: .atom kind :: frozen :: flds) => do
       let kind ← (match kind with
-        | "attrs" => some ClsKind.attrs | "dc" => some ClsKind.dataclass | "td" => some ClsKind.typeddict | _ => Option.none)
+        | "attrs" => some ClsKind.attrs | "dc" => some ClsKind.dataclass | "td" => some ClsKind.typeddict
+        | "nt" => some ClsKind.namedtuple | _ => Option.none)
       some { kind := kind, frozen := (← bool? frozen), fields := (← flds.mapM fieldOfSexp) }
   | _ => Option.none
 
